@@ -3331,14 +3331,17 @@ LEAN_OBLIGATIONS.update({
 
     ),
     "C13": dict(
-        modules=["Tumfl.Props.C13", "Tumfl.Props.C08"],
-        obligations=["Tumfl.Props.C13_parsed", "Tumfl.Props.C13_emit_on", "Tumfl.Props.C13_emit_off", "Tumfl.Props.C13_placement",
-                     "Tumfl.Props.C08_comment_wf", "Tumfl.Props.C08_comment_text"],
+        modules=["Tumfl.Props.C13Text", "Tumfl.Props.C13", "Tumfl.Props.C08"],
+        obligations=["Tumfl.Props.C13_text", "Tumfl.Props.C13_text_off", "Tumfl.Props.C13_parsed", "Tumfl.Props.C13_emit_on", "Tumfl.Props.C13_emit_off",
+                     "Tumfl.Props.C13_placement", "Tumfl.Props.C08_comment_wf", "Tumfl.Props.C08_comment_text"],
         extractors=["FmtTables", "Brackets"],
         tie_names=["T2:format (comment pieces through every stage to the final text)", "T2:parse (comment lists on statement tokens)"],
-        partial_hypotheses=["proved: parse then emit yields as comment pieces exactly the statement comments of the tree, in order, once each, in front of their statements; that "
-                            "the statement's comment list is the list of comments that precede it in the source combines C20_all_comments with T2:parse; that the layout passes keep "
-                            "comment pieces is C08_* (pieces are kept) - not composed into one statement about the final text"],
+        partial_hypotheses=["proved on the models: parse, then format with comments on under any documented style: the comments the reference lexer finds in the final text are the "
+                            "header and then every statement's leading comments, in statement order, each once, spelled by _format_comment (C13_text; C08_comment_text: that spelling "
+                            "reads back as the stripped text); with comments off only the header (C13_text_off). Hypothesis: K5 excluded (no blank directly before an inner line break of a "
+                            "comment). That a statement's comment list is the list of comments preceding it in the source: C20_delivery + T2:parse; `before the same statement`: "
+                            "C13_placement at piece level"],
+
     ),
     "C14": dict(
         modules=["Tumfl.Props.C14"],
